@@ -616,6 +616,16 @@ pub fn update_msk(
     msk: &mut MasterSecretKey,
     rights: HashMap<Right, (EncryptionHint, AttributeStatus)>,
 ) -> Result<(), Error> {
+    // Check the update is valid before modifying the MSK, so that it is left
+    // untouched upon error.
+    if rights.iter().any(|(r, (_, status))| {
+        AttributeStatus::DecryptOnly == *status && !msk.secrets.contains_key(r)
+    }) {
+        return Err(Error::OperationNotPermitted(
+            "cannot add decrypt only secret".to_string(),
+        ));
+    }
+
     let mut secrets = take(&mut msk.secrets);
     secrets.retain(|r| rights.contains_key(r));
 
